@@ -338,6 +338,15 @@ def m_unwrap(ex, st, callee, args):
     raise Inconclusive("%s on %r" % (callee, v))
 
 
+def m_unwrap_or(ex, st, callee, args):
+    v = ex.deref(st, args[0]) if isinstance(args[0], Ref) else args[0]
+    if isinstance(v, Adt) and v.ty == "Option":
+        return [(None, v.fields[0] if v.variant == "Some" else args[1])]
+    if isinstance(v, Adt) and v.ty == "Result":
+        return [(None, v.fields[0] if v.variant == "Ok" else args[1])]
+    raise Inconclusive("unwrap_or on %r" % (v,))
+
+
 def m_result_ok(ex, st, callee, args):
     v = ex.deref(st, args[0])
     if isinstance(v, Adt) and v.ty == "Result":
@@ -630,6 +639,12 @@ def m_map_ctor(ex, st, callee, args):
     v = ex.deref(st, args[0]) if isinstance(args[0], Ref) else args[0]
     f = args[1]
     import sym as _s
+    if isinstance(f, Opaque) and f.tag == "const" and f.data.strip() in ("String::as_str", "<String as Deref>::deref"):
+        if isinstance(v, Adt) and v.ty == "Option":
+            if v.variant == "None":
+                return [(None, NONE)]
+            return [(None, some(m_str_view(ex, st, "String::as_str", [v.fields[0]])[0][1]))]
+        raise Inconclusive("map(String::as_str) on %r" % (v,))
     if isinstance(f, Adt) and f.ty in _s.ENUMS and not f.fields:
         segs = [f.ty, f.variant]      # a tuple-variant constructor used as a function item
     elif isinstance(f, Opaque) and f.tag == "const":
@@ -670,6 +685,83 @@ def m_opt_as_ref(ex, st, callee, args):
     return [(None, some(inner_ref))]
 
 
+# ------------------------------------------------------------------ Box<T>: Box(Unique(NonNull = reference to a heap cell))
+def _box_target(ex, st, v):
+    """reference to the heap cell a Box value (or a reference to a Box) points to"""
+    n = 0
+    while isinstance(v, Ref) and n < 6:
+        inner = ex.read(st, v.cell, v.path)
+        if isinstance(inner, Adt) and inner.ty == "Box":
+            v = inner
+            break
+        if isinstance(inner, Ref):
+            v = inner
+            n += 1
+            continue
+        raise Inconclusive("expected a Box, got %r" % (inner,))
+    if not (isinstance(v, Adt) and v.ty == "Box"):
+        raise Inconclusive("expected a Box, got %r" % (v,))
+    u = v.fields[0]
+    while isinstance(u, Adt) and u.ty in ("Unique", "NonNull"):
+        u = u.fields[0]
+    if not isinstance(u, Ref):
+        raise Inconclusive("malformed Box %r" % (v,))
+    return u
+
+
+def new_box(st, value):
+    st.nframe += 1
+    key = ("box", st.nframe)
+    st.cells[key] = value
+    return Adt("Box", None, [Adt("Unique", None, [Ref(key)]), Adt("Global", None, [])])
+
+
+def m_box_as_ref(ex, st, callee, args):
+    return [(None, _box_target(ex, st, args[0]))]
+
+
+def m_box_new(ex, st, callee, args):
+    return [(None, new_box(st, args[0]))]
+
+
+def m_box_clone(ex, st, callee, args):
+    """<Box<T> as Clone>::clone: a new allocation holding a clone of the (immutable) value tree"""
+    t = _box_target(ex, st, args[0])
+    return [(None, new_box(st, ex.read(st, t.cell, t.path)))]
+
+
+def m_clone_value(ex, st, callee, args):
+    """clone / to_owned of a value tree without shared interior: the same (immutable) value"""
+    return [(None, ex.deref(st, args[0]))]
+
+
+def m_effect_ok(ex, st, callee, args):
+    """interpreter side effect outside the kernel (variable registration): recorded, returns Ok(())"""
+    st.effects.append((callee.split("::")[-1], tuple(ex.deref(st, a) if isinstance(a, Ref) and i > 0 else a for i, a in enumerate(args[1:], 1))))
+    return [(None, ok(UNIT))]
+
+
+def m_effect_unit(ex, st, callee, args):
+    st.effects.append((callee.split("::")[-1], tuple(args[1:])))
+    return [(None, UNIT)]
+
+
+def m_parse_literal(ex, st, callee, args):
+    """str::parse::<int> of a concrete string literal"""
+    lit = _strlit(ex, st, args[0])
+    if lit is None:
+        raise Inconclusive("parse of a non-literal string")
+    ty = re.search(r"parse::<(\w+)>$", callee).group(1)
+    text = lit.data.strip('"')
+    try:
+        v = int(text, 10)
+    except ValueError:
+        return [(None, err(Opaque("ParseIntError")))]
+    if re.fullmatch(r"[+-]?\d+", text) is None or not (int_min(ty) <= v <= int_max(ty)):
+        return [(None, err(Opaque("ParseIntError")))]
+    return [(None, ok(bv(ty, v)))]
+
+
 # ------------------------------------------------------------------ Cow
 def m_cow_as_ref(ex, st, callee, args):
     r = args[0]
@@ -697,10 +789,18 @@ def m_cow_into_owned(ex, st, callee, args):
 
 def base_models():
     m = Models()
-    m.add(r"^<Cow<.*> as (AsRef<.*>|Deref|Borrow<.*>)>::(as_ref|deref|borrow)$", m_cow_as_ref)
-    m.add(r"^Cow::<.*>::into_owned$", m_cow_into_owned)
+    m.add(r"^<(std::borrow::)?Cow<.*> as (AsRef<.*>|Deref|Borrow<.*>)>::(as_ref|deref|borrow)$", m_cow_as_ref)
+    m.add(r"^(std::borrow::)?Cow::<.*>::into_owned$", m_cow_into_owned)
+    m.add(r"^<variables::primitive::Primitive as ToOwned>::to_owned$", m_clone_value)
+    m.add(r"^context::Ctx::<'_>::register_variable_local$", m_effect_ok)
+    m.add(r"^context::Ctx::<'_>::signal$", m_effect_unit)
+    m.add(r"^core::str::<impl str>::parse::<(isize|usize|i32|i64|u32|u64)>$", m_parse_literal)
+    m.add(r"^<Box<.*> as (AsRef<.*>|Deref|DerefMut|Borrow<.*>|AsMut<.*>)>::(as_ref|deref|deref_mut|borrow|as_mut)$", m_box_as_ref)
+    m.add(r"^Box::<.*>::new$", m_box_new)
+    m.add(r"^<Box<.*> as Clone>::clone$", m_box_clone)
     m.add(r"^(Option|std::option::Option)::<.*>::(as_ref|as_mut|as_deref|as_deref_mut)$", m_opt_as_ref)
-    m.add(r"^(Option|Result|std::result::Result|std::option::Option)::<.*>::map::<.*, fn\(.*\) -> .* \{.*\}>$", m_map_ctor)
+    m.add(r"^(Option|Result|std::result::Result|std::option::Option)::<.*>::map::<.*, (for<.*> )?fn\(.*\) -> .* \{.*\}>$", m_map_ctor)
+    m.add(r"^<Box<.*> as Drop>::drop$", m_unit)
     m.add(r"^Vec::<.*>::pop$", m_vec_pop)
     m.add(r"^Vec::<.*>::push$", m_vec_push)
     m.add(r"^Vec::<.*>::clear$", m_vec_clear)
@@ -720,11 +820,11 @@ def base_models():
     m.add(r"^<String as PartialEq>::(eq|ne)$", m_abs_string_eq)
     m.add(r"^String::as_str$|^<String as Deref>::deref$", m_str_view)
     m.add(r"^std::rt::panic_fmt$|^core::panicking::panic(_fmt|_display|_explicit)?(::<.*>)?$|^std::rt::begin_panic", m_panic_fmt)
-    m.add(r"^<(String|str) as ToOwned>::to_owned$", m_abs_string)
+    m.add(r"^<(String|str) as ToOwned>::to_owned$", m_str_view)
     m.add(r"^<.* as ToString>::to_string$", m_abs_string)
     m.add(r"^<String as Add<&str>>::add$", m_abs_string)
     m.add(r"^<String as Deref>::deref$", m_abs_string)
-    m.add(r"^<String as Clone>::clone$", m_abs_string)
+    m.add(r"^<String as Clone>::clone$", m_str_view)
     m.add(r"^String::as_str$", m_abs_string)
     m.add(r"^((std|alloc|core)::)?str::<impl str>::repeat$", m_str_repeat)
     m.add(_arith_re.pattern, m_arith)
@@ -742,6 +842,7 @@ def base_models():
     m.add(r"^(Option|std::option::Option|std::result::Result|Result)::<.*>::(is_none|is_some|is_ok|is_err)$", m_opt_pred)
     m.add(r"^(Option|std::option::Option|std::result::Result|Result)::<.*>::(unwrap|expect)$", m_unwrap)
     m.add(r"^(std::result::Result|Result)::<.*>::ok$", m_result_ok)
+    m.add(r"^(Option|std::option::Option|std::result::Result|Result)::<.*>::unwrap_or$", m_unwrap_or)
     m.add(r"^anyhow::__private::format_err$", m_opaque_error)
     m.add(r"^anyhow::Error::msg::<", m_opaque_error)
     m.add(r"^anyhow::error::<impl anyhow::Error>::msg::<", m_opaque_error)
